@@ -26,18 +26,25 @@ import (
 )
 
 const (
-	stallNone    = ""
-	stallSilent  = "silent"   // connects, never calls RegisterPlugin
-	stallLate    = "late"     // calls RegisterPlugin >= 2 x the registration timeout after it was accepted
-	stallCfgHang = "cfg-hang" // registers, its Configure handler never answers
-	stallCfgErr  = "cfg-err"  // registers, answers Configure with an error
-	stallSyncErr = "sync-err" // registers, configures, answers Synchronize with an error
+	stallNone     = ""
+	stallSilent   = "silent"    // connects, never calls RegisterPlugin
+	stallLate     = "late"      // calls RegisterPlugin >= 2 x the registration timeout after it was accepted
+	stallCfgHang  = "cfg-hang"  // registers, its Configure handler never answers
+	stallCfgErr   = "cfg-err"   // registers, answers Configure with an error
+	stallCfgClose = "cfg-close" // registers, closes its connection instead of answering Configure
+	stallSyncErr  = "sync-err"  // registers, configures, answers Synchronize with an error
 	// the peer's ttRPC server does not register Configure / Synchronize / any Plugin service:
 	// ttRPC itself answers those requests with status Unimplemented
 	stallNoConfigure   = "no-configure"
 	stallNoSynchronize = "no-synchronize"
 	stallNoService     = "no-service"
 	stallMulti         = "multi" // calls RegisterPlugin several times on one connection (Attempts, GapMs, Final)
+
+	// phases of a peer's further RegisterPlugin calls (Peer.Extra)
+	phaseEarly          = "early"           // right behind its own registration, before the reply
+	phaseInConfigure    = "in-configure"    // from inside its Configure handler, before answering
+	phaseAfterConfigure = "after-configure" // as soon as its Configure handler has returned
+	phaseInSynchronize  = "in-synchronize"  // from inside its Synchronize handler
 
 	finalSilence    = "silence"     // after the invalid attempts: nothing more
 	finalDisconnect = "disconnect"  // ... closes its connection
@@ -68,6 +75,27 @@ type Peer struct {
 	ErrForm     string `json:"err_form,omitempty"`
 	ErrCode     int    `json:"err_code,omitempty"`
 	ErrSentinel string `json:"err_sentinel,omitempty"`
+
+	// Extra: further RegisterPlugin calls on the same connection after the peer's own
+	// (well-formed, timely) registration, each valid or invalid, with the same or a different
+	// identity, sent at the given phase. Honoured for the stalls that get as far as Configure
+	// ("", cfg-err, cfg-hang, cfg-close, sync-err).
+	Extra []ExtraReg `json:"extra,omitempty"`
+}
+
+// ExtraReg is one further registration of a peer.
+type ExtraReg struct {
+	Name  string `json:"name"`
+	Idx   string `json:"idx"`
+	Phase string `json:"phase"`
+}
+
+func allowsExtra(stall string) bool {
+	switch stall {
+	case stallNone, stallCfgErr, stallCfgHang, stallCfgClose, stallSyncErr:
+		return true
+	}
+	return false
 }
 
 // Reg is one RegisterPlugin request.
@@ -179,6 +207,8 @@ func judgeSpec(p Peer, T time.Duration) (valid bool, why string, timingOnly bool
 		reasons = append(reasons, "never registers")
 	case stallCfgHang:
 		reasons = append(reasons, "never answers Configure")
+	case stallCfgClose:
+		reasons = append(reasons, "closes its connection instead of answering Configure")
 	case stallCfgErr:
 		reasons = append(reasons, "answers Configure with an error ("+errClass(p)+")")
 	case stallSyncErr:
@@ -213,6 +243,12 @@ func judgeSpec(p Peer, T time.Duration) (valid bool, why string, timingOnly bool
 			// early enough (or too close to the timeout to call): open
 			return false, fmt.Sprintf("%d invalid registrations, then a valid one %v after it was accepted: left open by the statement", len(p.Attempts), at), false, true
 		}
+	}
+	if len(reasons) == 0 && len(p.Extra) > 0 && allowsExtra(p.Stall) {
+		// registered properly and in time, answers Configure properly - and registered again on
+		// the same connection: the statement (an only-if) leaves it open whether that plugin is
+		// active; the unchanged runtime answers the second call and keeps the plugin
+		return false, fmt.Sprintf("well-formed and timely, with %d further registrations on its connection: left open by the statement", len(p.Extra)), false, true
 	}
 	if len(reasons) == 0 {
 		return true, "", false, false
@@ -377,7 +413,7 @@ func genGoodPeer(t *rapid.T, label string) Peer {
 
 // genBadPeer starts from a good peer and breaks one (sometimes two) things. The three
 // defects that cost wall time (silent, late, cfg-hang, multi: one or two timeouts each) have a combined
-// weight of 7/26 so that the average case stays well below 0.4 s.
+// weight of 7/27 so that the average case stays well below 0.4 s.
 func genBadPeer(t *rapid.T, label string) Peer {
 	p := genGoodPeer(t, label)
 	defects := []string{
@@ -385,6 +421,7 @@ func genBadPeer(t *rapid.T, label string) Peer {
 		"two", "idx", "mask", stallSilent, stallCfgHang, "idx", "mask", "name", stallCfgErr,
 		stallMulti, stallMulti,
 		stallSyncErr, stallNoConfigure, stallSyncErr, stallNoSynchronize, stallNoService, stallCfgErr,
+		stallCfgClose,
 	}
 	apply := func(d string, l string) {
 		switch d {
@@ -534,8 +571,40 @@ func genC17(t *rapid.T) C17Case {
 		}
 	}
 	c.Events = genEvents(t)
+	genExtras(t, &c)
 	genTimeouts(t, &c)
 	return c
+}
+
+// genExtras lets some peers that get as far as Configure register again on their connection:
+// 1-2 further RegisterPlugin calls, each with the same identity, a different well-formed
+// one, or an invalid one, at a drawn phase of the handshake.
+func genExtras(t *rapid.T, c *C17Case) {
+	for i := range c.Peers {
+		p := &c.Peers[i]
+		if !allowsExtra(p.Stall) || p.Name == "" || !twoDigits.MatchString(p.Idx) {
+			continue
+		}
+		if !rapid.SampledFrom([]bool{false, false, true, false, false}).Draw(t, fmt.Sprintf("rereg%d", i)) {
+			continue
+		}
+		n := rapid.SampledFrom([]int{1, 1, 2}).Draw(t, fmt.Sprintf("rereg%d-n", i))
+		for j := 0; j < n; j++ {
+			l := fmt.Sprintf("rereg%d-%d", i, j)
+			e := ExtraReg{Name: p.Name, Idx: p.Idx}
+			e.Phase = rapid.SampledFrom([]string{phaseInConfigure, phaseEarly, phaseInConfigure, phaseAfterConfigure, phaseInSynchronize}).Draw(t, l+"-phase")
+			switch rapid.SampledFrom([]string{"different", "same", "different", "invalid", "different-idx"}).Draw(t, l+"-what") {
+			case "different":
+				e.Name, e.Idx = genName(t, l+"-name")+"2", genGoodIdx(t, l+"-idx")
+			case "different-idx":
+				e.Idx = fmt.Sprintf("%02d", (int(p.Idx[0]-'0')*10+int(p.Idx[1]-'0')+1)%100)
+			case "invalid":
+				r := genBadReg(t, l+"-bad")
+				e.Name, e.Idx = r.Name, r.Idx
+			}
+			p.Extra = append(p.Extra, e)
+		}
+	}
 }
 
 // genTimeouts draws WHEN the timeouts are set: the value in force while the Adaptation is
@@ -597,6 +666,14 @@ func runC17(c C17Case) ev.Outcome {
 			}
 			if a.Name != "" && twoDigits.MatchString(a.Idx) {
 				return ev.Outcome{Excluded: "multi-attempt-not-invalid"} // the attempts ahead of the final one are invalid by construction
+			}
+		}
+		if len(p.Extra) > 0 && (p.Name == "" || !twoDigits.MatchString(p.Idx) || len(p.Extra) > 4) {
+			return ev.Outcome{Excluded: "extra-needs-valid-first-registration"}
+		}
+		for _, e := range p.Extra {
+			if !utf8.ValidString(e.Name) || !utf8.ValidString(e.Idx) {
+				return ev.Outcome{Excluded: "non-utf8-string"}
 			}
 		}
 		if p.Stall == stallMulti && (p.GapMs < 1 || len(p.Attempts) > 40) {
@@ -692,6 +769,31 @@ func regClasses(c C17Case) ev.Outcome {
 			classes["stall:multi"] = true
 			classes["multi:"+p.Final] = true
 			classes[fmt.Sprintf("multi:attempts-%s", bucket(len(p.Attempts)))] = true
+		}
+		if len(p.Extra) > 0 && allowsExtra(p.Stall) {
+			classes["rereg"] = true
+			outcome := p.Stall
+			if outcome == stallNone {
+				outcome = "ok"
+				if p.Mask&^validBits != 0 {
+					outcome = "bad-mask"
+				}
+			}
+			classes["rereg:then-"+outcome] = true
+			for _, e := range p.Extra {
+				classes["rereg:phase-"+e.Phase] = true
+				switch {
+				case e.Name == "" || !twoDigits.MatchString(e.Idx):
+					classes["rereg:invalid"] = true
+				case e.Name == p.Name && e.Idx == p.Idx:
+					classes["rereg:same-identity"] = true
+				default:
+					classes["rereg:different-identity"] = true
+					if outcome != "ok" && outcome != stallSyncErr {
+						classes["rereg:different-identity-then-configure-fails"] = true
+					}
+				}
+			}
 		}
 		if isOpen(p, c.peerTimeout(i)) {
 			openSoFar++ // neither certainly invalid nor valid: does not make a case non-trivial
@@ -825,11 +927,16 @@ func runRegOnce(c C17Case) (v regVerdict) {
 	}
 	var peers []*rawPeer
 	var notes []string
+	stuck := false // a request through the adaptation never returned: Stop() would block as well
 	defer func() {
 		for _, p := range peers {
 			p.teardown()
 		}
-		rt.Stop()
+		if stuck {
+			go rt.Stop() // leaked on purpose; the case is reported
+			return
+		}
+		within(10*time.Second, func() error { rt.Stop(); return nil })
 	}()
 
 	// Connect in queue order from one goroutine: the kernel queues the connections in this
@@ -911,8 +1018,17 @@ func runRegOnce(c C17Case) (v regVerdict) {
 	}
 	deadline := since[len(specs)-1].Add(bound) // counted from the moment the sentinel connected
 	for {
-		if err := rt.Probe(); err != nil {
-			hist.Notes = append(hist.Notes, "probe: "+err.Error())
+		// A request through the adaptation that does not come back would hang the harness; it
+		// also keeps the runtime from activating anybody (it holds the adaptation's lock), so it
+		// is the time clause that fails.
+		perr, returned := within(time.Until(deadline)+slack, rt.Probe)
+		if !returned {
+			stuck = true
+			clause = "probe-event-stuck"
+			return finish(fmt.Sprintf("a probe event sent through the adaptation did not return, so the well-formed peer behind %d invalid ones was not active within %v", nInvalid, bound), true)
+		}
+		if perr != nil {
+			hist.Notes = append(hist.Notes, "probe: "+perr.Error())
 		}
 		sentinel.mu.Lock()
 		n := sentinel.probes
@@ -966,7 +1082,12 @@ func runRegOnce(c C17Case) (v regVerdict) {
 	// subscribed active plugin has handled the event.
 	for i, e := range c.Events {
 		tag := fmt.Sprintf("ev-%d", i)
-		err := fire(rt, api.Event(e), tag)
+		err, returned := within(10*time.Second, func() error { return fire(rt, api.Event(e), tag) })
+		if !returned {
+			stuck = true
+			clause = "event-stuck"
+			return finish(fmt.Sprintf("event %d (%s) sent through the adaptation did not return within 10 s: the runtime is stuck and nobody can register any more", e, tag), true)
+		}
 		f := firedEvent{Tag: tag, Event: e}
 		if err != nil {
 			f.Err = err.Error()
@@ -997,11 +1118,15 @@ func runRegOnce(c C17Case) (v regVerdict) {
 		if isOpen(spec, tmo[i]) {
 			// The statement leaves it open whether this peer becomes active; if it did, it is
 			// judged like any active plugin (Synchronize once, exactly the events of its mask).
+			kind := "multi:early-valid"
+			if spec.Stall != stallMulti {
+				kind = "rereg:otherwise-valid"
+			}
 			if r.NSync == 0 && len(got) == 0 && r.Probes == 0 {
-				lenient = append(lenient, "multi:early-valid-not-activated")
+				lenient = append(lenient, kind+"-not-activated")
 				continue
 			}
-			lenient = append(lenient, "multi:early-valid-activated")
+			lenient = append(lenient, kind+"-activated")
 			ok = true
 		}
 		if !ok {
@@ -1106,6 +1231,18 @@ func runRegOnce(c C17Case) (v regVerdict) {
 		return finish(strings.Join(timingFails, " | "), true)
 	}
 	return regVerdict{lenient: lenient}
+}
+
+// within runs f on a goroutine of its own and waits at most d for it.
+func within(d time.Duration, f func() error) (err error, returned bool) {
+	done := make(chan error, 1)
+	go func() { done <- f() }()
+	select {
+	case err = <-done:
+		return err, true
+	case <-time.After(d):
+		return nil, false
+	}
 }
 
 func regNote(r PeerRecord) string {
